@@ -54,8 +54,13 @@ func StartREPL(preloadSrc string, in io.Reader, out io.Writer) {
 	}
 }
 
+// maxLineSize is the maximum length of one input line.
+const maxLineSize = 1 << 30
+
 func newScanner(in io.Reader) *_Scanner {
 	scanner := bufio.NewScanner(in)
+	// NOTE: the default limit (64KiB per line) makes Scan fail silently, which ends the session
+	scanner.Buffer(make([]byte, 0, bufio.MaxScanTokenSize), maxLineSize)
 	return &_Scanner{
 		mode:    newScannerState("single"),
 		scanner: scanner,
